@@ -529,9 +529,9 @@ pub fn table_images() -> (Vec<(usize, Vec<u8>)>, HashMap<String, Scope>) {
         let _ = catch(|| portus::lang::compile(&[0x28, 0xff, 0xfe, 0x29], &[]).is_ok());
         let _ = catch(|| portus::lang::compile(b"(def", &[]).is_ok());
         if let Some(Ok((bin, sc))) = catch(|| portus::lang::compile(src.as_bytes(), &[])) {
-            if let Ok(b) = bin.serialize() { images.push((i, b)); }
-            // for duplicate names keep the first (dup-named programs are not used with own scopes)
-            own.entry(name.to_string()).or_insert(sc);
+            // for duplicate names keep the first (dup-named programs are not used with own scopes); a program
+            // whose image cannot be encoded has no own scope either (as in the driver's table)
+            if let Ok(b) = bin.serialize() { images.push((i, b)); own.entry(name.to_string()).or_insert(sc); }
         }
     }
     (images, own)
@@ -805,7 +805,7 @@ fn gen_ctl_fields(r: &mut Rng, prog: &str, n: usize) -> String {
 fn gen_cmds(r: &mut Rng, report: bool) -> String {
     let n = r.below(4);
     if n == 0 { return "-".into(); }
-    let progs = ["alpha", "beta", "gamma", "dup", "delta", "alpha2", "epsilon", "eta", "theta", "iota", "kappa", "lambda", "nosuchprog", "bad"];
+    let progs = ["alpha", "beta", "gamma", "dup", "delta", "alpha2", "epsilon", "eta", "theta", "iota", "kappa", "lambda", "nosuchprog", "bad", "unenc"];
     (0..n).map(|_| {
         let p = if r.chance(5, 6) { *r.pick(&progs[..12]) } else { *r.pick(&progs) };
         let k = if report { r.below(6) } else { r.below(3) };
@@ -844,6 +844,7 @@ pub fn gen_case(r: &mut Rng, adversarial: bool, faults: bool) -> String {
     // programs per instance (program 5 = uncompilable, rare)
     let mut ip = vec![];
     let mut offered: Vec<usize> = vec![];
+    let mut has_unenc = false;
     for i in &insts {
         let mut ps: Vec<usize> = vec![];
         for p in [0usize, 1, 2, 3, 4, 6] { if r.chance(1, 2) { ps.push(p); } }
@@ -855,7 +856,7 @@ pub fn gen_case(r: &mut Rng, adversarial: bool, faults: bool) -> String {
         if ps.contains(&3) && ps.contains(&4) { ps.retain(|x| *x != 4); }   // one map cannot hold a name twice
         if *i == 0 && ps.is_empty() { ps.push(0); }
         if r.chance(1, 80) { ps.push(5); }
-        if r.chance(1, 80) { ps.push(14); }
+        if r.chance(1, 80) { ps.push(14); has_unenc = true; }
         offered.extend(ps.iter().cloned());
         ip.push(format!("{}:{}", i, ps.iter().map(|p| p.to_string()).collect::<Vec<_>>().join(",")));
     }
@@ -868,6 +869,8 @@ pub fn gen_case(r: &mut Rng, adversarial: bool, faults: bool) -> String {
     let mut repc: Vec<String> = vec![];
     if r.chance(5, 6) { let nf = r.below(3) as usize; newc.push(format!("SP:{}:{}", mname, gen_ctl_fields(r, mname, nf))); }
     if r.chance(1, 3) { let g = gen_cmds(r, false); if g != "-" { newc.push(g); } }
+    // a program that compiles but whose install message cannot be encoded: a runtime that starts at all must not select it
+    if has_unenc { newc.push("SP:unenc:-".to_string()); }
     for _ in 0..r.below(3) {
         let f = if r.chance(4, 5) { *r.pick(report_fields_of(main)) } else { *r.pick(&PROBE_NAMES) };
         repc.push(format!("GR:{}:{}", mname, f));
@@ -889,7 +892,11 @@ pub fn gen_case(r: &mut Rng, adversarial: bool, faults: bool) -> String {
     let addrs: Vec<u64> = if adversarial && r.chance(1, 3) { colliding_addrs().to_vec() } else { vec![1u64, 2, 3] };
     let sids = [1u32, 2, 3, 0x10];
     let algnames = ["-", "-", "reno", "renoX", LONG63, LONG63, "cubic", "dflt", "ren", "renoXY", "zzz", "", "renoreno0123456789012345678901234567890123456789012345678901234", &LONG63[..62],
-        "reno~0a", "reno~20", "renoX~09", "~20reno", "dflt~0d~0a", "Reno", "reno~00x", "RENO", "tcp_reno", "tcp_renoX", "reno.", "ccp_reno", "reno_"];
+        "reno~0a", "reno~20", "renoX~09", "~20reno", "dflt~0d~0a", "Reno", "reno~00x", "RENO", "tcp_reno", "tcp_renoX", "reno.", "ccp_reno", "reno_",
+        // unregistered names that agree with a registered one under a 32-bit digest (FNV-1a, FNV-1, CRC-32, djb2 in both
+        // forms, sdbm, the 31-multiplier hash, FNV-1a/64 truncated and folded) or under any digest of the multiset of bytes
+        "nptvtxx", "aqoljhgr", "aacswgq", "ljnvuvo", "bboxcdf", "ajfwbvrx", "bmkcjyf", "jglvyrn", "bnprifm",
+        "chbfzfa", "koumobg", "vqovhrp", "renny", "dsrrwso", "rennw", "kctfgyv", "alhqrvl", "oner", "Xoner", "onerX"];
     let mut evs = vec![];
     let mut live: Vec<(u64, u32)> = vec![];
     let mut sends_guess = 0usize;
